@@ -58,6 +58,8 @@ class RuleCtx:
         o = Obligation(rule, file, fn, ' '.join(str(construct).split()), bool(ok), why,
                        int(line or 0), nontrivial, list(path or []))
         self.obligations.append(o)
+        if file in self.prog.modules:
+            self.prog.consulted.add(file)
         return o
 
     def floor(self, rule: str, found: int, expected: int, what: str = 'instances'):
